@@ -102,6 +102,7 @@ class AV:
 _CTORS = ('class', 'typeof', 'ctor')
 IMM = AV(DEEP)                                    # immutable or fresh-all-the-way: can be stored anywhere without harm
 GLOBAL = AV(SHARED, [(EXT, ANY)])
+MEMO_DECORATORS = ('cache', 'lru_cache', 'cached', 'memoize', 'cache_func')
 
 
 def deepen(org, to=ANY):
@@ -571,6 +572,9 @@ class FA:
                 el = y if el is None else join(el, y)
             self.summary.is_gen = True
             res = AV(DEEP if el.lvl == DEEP else SHALLOW, deepen(el.org), elem=el)
+        # a memoised function hands out the object its memo table keeps: whatever the body builds, callers share it with later callers
+        if any(ast.unparse(d).split('(')[0].split('.')[-1] in MEMO_DECORATORS for d in self.node.decorator_list):
+            res = join(res, GLOBAL)
         bt = res.btypes
         if res.lvl == BRANCH:
             if bt and bt[0] == 'param':
